@@ -7,11 +7,27 @@
 #include "vf_spec.h"
 #include <photospline/splinetable.h>
 #include <unistd.h>
+#include <new>
 
 using namespace vf;
 typedef photospline::splinetable<> Table;
 
 extern "C" size_t LLVMFuzzerMutate(uint8_t *Data, size_t Size, size_t MaxSize);
+
+// A header may declare an array of hundreds of gigabytes. In the production build `new` then throws std::bad_alloc and the read fails cleanly (judged by the
+// h_fits production pass); the sanitizer's own operator new would abort the process instead. Route the C++ allocation functions through malloc (still
+// tracked by ASan) and refuse absurd sizes the way a real allocator does.
+static void *vf_new(size_t n) { if (n > ((size_t)1 << 31)) throw std::bad_alloc(); void *p = malloc(n ? n : 1); if (!p) throw std::bad_alloc(); return p; }
+void *operator new(size_t n) { return vf_new(n); }
+void *operator new[](size_t n) { return vf_new(n); }
+void *operator new(size_t n, const std::nothrow_t &) noexcept { return n > ((size_t)1 << 31) ? nullptr : malloc(n ? n : 1); }
+void *operator new[](size_t n, const std::nothrow_t &) noexcept { return n > ((size_t)1 << 31) ? nullptr : malloc(n ? n : 1); }
+void operator delete(void *p) noexcept { free(p); }
+void operator delete[](void *p) noexcept { free(p); }
+void operator delete(void *p, size_t) noexcept { free(p); }
+void operator delete[](void *p, size_t) noexcept { free(p); }
+void operator delete(void *p, const std::nothrow_t &) noexcept { free(p); }
+void operator delete[](void *p, const std::nothrow_t &) noexcept { free(p); }
 
 static FILE *g_err = nullptr;
 static long n_exec = 0, n_accept = 0, n_reject = 0, n_battery = 0, n_reuse = 0, n_structured = 0, n_bytewise = 0;
@@ -113,9 +129,11 @@ extern "C" int LLVMFuzzerTestOneInput(const uint8_t *data, size_t size) {
 // ---------------------------------------------------------------- structure-aware mutator
 static void put_be32(std::vector<unsigned char> &d, size_t off, uint32_t v) { if (off + 4 <= d.size()) { d[off] = v >> 24; d[off + 1] = v >> 16; d[off + 2] = v >> 8; d[off + 3] = v; } }
 extern "C" size_t LLVMFuzzerCustomMutator(uint8_t *Data, size_t Size, size_t MaxSize, unsigned int Seed) {
-	Rng r(Seed, "fzm", 0);
+	Rng r(Seed, "fzm", 1);
 	std::vector<RawHDU> h;
-	if (r.coin(0.5) && raw_decode(Data, Size, h) && !h.empty()) {
+	std::string why; bool wantst = r.coin(0.5); bool dec = wantst && raw_decode(Data, Size, h, &why);
+	if (getenv("VF_FZ_DEBUG") && g_err) fprintf(g_err, "mutator: size=%zu max=%zu structured=%d decoded=%d hdus=%zu why=%s\n", Size, MaxSize, (int)wantst, (int)dec, h.size(), why.c_str());
+	if (dec && !h.empty()) {
 		n_structured++;
 		int nmut = 1 + (int)r.below(3);
 		for (int m = 0; m < nmut; m++) {
